@@ -28,11 +28,11 @@ fn one<T: SwiftMessageBody + serde::Serialize + 'static>(rep: &mut Report, code:
     let second = std::panic::catch_unwind(move || SwiftParser::parse::<T>(&t1c).map(|m| (m.to_mt_message(), serde_json::to_value(&m).unwrap_or(Value::Null))).map_err(|e| format!("{e}")));
     match second {
         Err(_) => rep.fail(&format!("reparse_panicked|MT{code}|{class}"), wit("re-parsing the serialised message panics", json!({"serialised": t1}))),
-        Ok(Err(e)) => rep.fail(&format!("reparse_rejected|MT{code}|{}", site_of(&e)), wit("the serialised message is rejected", json!({"serialised": t1, "error": e}))),
+        Ok(Err(e)) => rep.fail(&format!("reparse_rejected|MT{code}|{}", if crate::fmt::beyond_f64(text) { "f64-precision".to_string() } else { site_of(&e) }), wit("the serialised message is rejected", json!({"serialised": t1, "error": e}))),
         Ok(Ok((t2, j2))) => {
             if canon(&j2) != canon(&j1) {
                 let part = ["basic_header", "application_header", "user_header", "trailer", "fields"].iter().find(|k| j1.get(**k).map(canon) != j2.get(**k).map(canon)).copied().unwrap_or("?");
-                rep.fail(&format!("value_changed|MT{code}|{part}"), wit("the second parse differs from the first", json!({"part": part, "first": j1.get(part), "second": j2.get(part), "serialised": t1})));
+                rep.fail(&format!("value_changed|MT{code}|{}", if crate::fmt::beyond_f64(text) { "f64-precision" } else { part }), wit("the second parse differs from the first", json!({"part": part, "first": j1.get(part), "second": j2.get(part), "serialised": t1})));
             } else if t2 != t1 {
                 rep.fail(&format!("not_fixed_point|MT{code}|{class}"), wit("the second serialisation differs from the first", json!({"first": t1, "second": t2})));
             }
